@@ -96,11 +96,10 @@ func scalarReflectFromGo(schema *schema_j5pb.Field, value interface{}) (protoref
 		}
 
 		if numVal, ok := value.(json.Number); ok {
-			i64, err := numVal.Int64()
-			if err != nil {
-				return pv, err
-			}
-			value = i64
+			// A bare JSON number is parsed like its quoted form below, so
+			// that the whole range of the field's format is accepted
+			// (uint64 above MaxInt64) and the range check is per format.
+			value = string(numVal)
 		}
 
 		switch st.Integer.Format {
@@ -377,6 +376,10 @@ func scalarReflectFromGo(schema *schema_j5pb.Field, value interface{}) (protoref
 				return protoreflect.Value{}, nil
 			}
 			return decimalFromString(*val)
+
+		case json.Number:
+			// decimals may be written as a bare JSON number
+			return decimalFromString(string(val))
 
 		case *decimal_j5t.Decimal:
 			return protoreflect.ValueOfMessage(val.ProtoReflect()), nil
